@@ -301,3 +301,48 @@ Definition store_actions (ev : list event) : list action :=
 Definition e2e_actions (step : wstep) (once : bool) (last : option blocks) (script : list load)
            (n : str) (s : bool) : list action :=
   flat_map (fun ev => store_actions ev ++ [AHandshake n s]) (watch_iters step once last script).
+
+(* ---- what a handshake is presented: the whole tls.Certificate value, not only the names
+   of its leaf.  GetCertificate returns &cs.Certificates[i] of the value it loaded from the
+   store, and crypto/tls puts all of it onto the wire.  A certificate of a set as the store
+   holds it: the names of its leaf (what the index is built from), the identity of the leaf's
+   DER, and the identity of everything else of the value that a client sees
+   (Certificate[1:] = the intermediate chain, OCSPStaple, SignedCertificateTimestamps).
+   Store.SetCertificates replaces the stored value by the set it is given whatever the
+   relation between the two sets is (same leaves with another chain included). ---- *)
+Record fcert := { fc_names : cert; fc_leaf : N; fc_rest : N }.
+Definition fset := list fcert.
+Definition names_of (set : fset) : certset := map fc_names set.
+(* what GetCertificate hands to crypto/tls.  [ROutside]: the index computed on the names
+   does not denote an element of the set (excluded by C11_presented_member) *)
+Inductive presented := RCert (i : nat) (c : fcert) | RNone | RErrNoCerts | ROutside (i : nat).
+Definition present_on (set : fset) (n : str) (s : bool) : presented :=
+  match store_pick (names_of set) n s with
+  | PCert i => match nth_error set i with Some c => RCert i c | None => ROutside i end
+  | PNone => RNone
+  | PErrNoCerts => RErrNoCerts
+  end.
+Definition pick_of (p : presented) : pick :=
+  match p with RCert i _ => PCert i | RNone => PNone | RErrNoCerts => PErrNoCerts | ROutside i => PCert i end.
+Inductive maction :=
+| MPublish (set : fset)                        (* Store.SetCertificates *)
+| MHandshake (name : str) (strict : bool).     (* certstore() load + getCertificate on the snapshot *)
+Fixpoint run_mstore (cur : fset) (sched : list maction) : list presented :=
+  match sched with
+  | [] => []
+  | MPublish c :: r => run_mstore c r
+  | MHandshake n s :: r => present_on cur n s :: run_mstore cur r
+  end.
+(* the same schedule as the name-level store sees it *)
+Definition strip_material (a : maction) : action :=
+  match a with MPublish c => APublish (names_of c) | MHandshake n s => AHandshake n s end.
+Definition fcert_eqb (a b : fcert) : bool :=
+  cert_eqb (fc_names a) (fc_names b) && (fc_leaf a =? fc_leaf b) && (fc_rest a =? fc_rest b).
+Definition presented_eqb (a b : presented) : bool :=
+  match a, b with
+  | RCert i c, RCert j d => Nat.eqb i j && fcert_eqb c d
+  | RNone, RNone => true
+  | RErrNoCerts, RErrNoCerts => true
+  | ROutside i, ROutside j => Nat.eqb i j
+  | _, _ => false
+  end.
